@@ -55,3 +55,6 @@ Definition render_steps (steps : list rstep) : list N := flat_map render_rstep s
 Definition chain_path (steps : list rstep) : list N := 36 :: render_steps steps.
 (* the same path written without its leading $ (the first step is then written as after `..`) *)
 Definition chain_path0 (s : kstep) (r : list rstep) : list N := rec_body s ++ render_steps r.
+(* the same path with blanks before and after *)
+Definition blanks (n : nat) : list N := repeat 32 n.
+Definition padded_path (n1 n2 : nat) (steps : list rstep) : list N := blanks n1 ++ chain_path steps ++ blanks n2.
